@@ -165,7 +165,7 @@ def run(ck):
     hists = []
     for i in range(n):
         g.null_in_nn = 0.04 if i % 2 else 0.0
-        h = g.history(i, nsteps=g.r.randint(6, 20), weights=WEIGHTS, bulk=(i % 10 == 0))
+        h = g.history(i, nsteps=g.r.randint(6, 20), weights=WEIGHTS, bulk=(i % 10 == 0), followup=False)
         h = inject_insert_select(g, h)
         qs = gen_queries(g, h)
         h["queries"] = qs
